@@ -5,6 +5,9 @@ CONSTANTS
   EmitUnlocked = FALSE
   StallFire = TRUE
   FixedTimer = TRUE
+  Split = TRUE
+  PeekStop = TRUE
+  WireGaps = FALSE
 SPECIFICATION Spec
 \* TimingExact presupposes a run loop that is never descheduled for longer than the ESC delay
 INVARIANTS NoPanic NoStateClobber ExactlyOneEOFLast
